@@ -3,6 +3,7 @@ from lib import runner
 
 LEVEL = "model_checking"
 SRC = "harness/c19_constpool.cpp"
+SRC_CC = "harness/c19_compiler.cpp"   # leg 2: BaseCompiler::_new_const histories (local/global scope, rejected requests, function boundaries)
 
 
 def run(res, ctx):
@@ -15,7 +16,14 @@ def run(res, ctx):
         runner.run_harness(res, SRC, "asan", tier, args=args, deadline=480, timeout=1200, shards=8)
     else:
         runner.run_harness(res, SRC, "asan", tier, args=args, deadline=1500, timeout=2400, shards=16)
+    cargs = ["--cdepth", ctx["opts"]["cdepth"]] if "cdepth" in ctx["opts"] else []
+    runner.run_harness(res, SRC_CC, "asan", tier, args=cargs, deadline=600 if tier == "quick" else 1500, timeout=2400, shards=16, label="compiler")
+    b = [res.strings.get("bound"), res.strings.pop("bound_compiler_leg", None)]
+    res.strings["bound"] = " || ".join(x for x in b if x)
 
 
 def replay(res, path, ctx):
+    if "harness=c19_compiler" in open(path).read():
+        runner.run_harness(res, SRC_CC, "asan", ctx["tier"], replay=path, timeout=300)
+        return
     runner.run_harness(res, SRC, "asan", ctx["tier"], replay=path, timeout=300)
